@@ -50,6 +50,11 @@ fn main() {
     // structured gluing of many nodes into one class (long zig-zag chains, wire orders that grow deep union-find trees)
     let gp = ohmc::props::structured::gluing_pairs(if quick { 12 } else { 24 }, if quick { 6 } else { 7 });
     ctx.run_slice(Slice::new(format!("structured-gluing[{} pairs, up to {} nodes]", gp.len(), gp.iter().map(|p| p.1.nodes.len() + p.2.nodes.len()).max().unwrap_or(0)), gp.len() as u64, |i, loc| check_pair::<B>(&gp[i as usize].1, &gp[i as usize].2, loc)).heavy());
+    // large operands (sizes 33 .. 129): every ordered pair of the shape families (composable or not)
+    let sizes: Vec<usize> = if quick { vec![33, 65] } else { vec![33, 64, 65, 129] };
+    let big: Vec<_> = ohmc::props::structured::shapes_at(&sizes, false).into_iter().map(|x| x.1).collect();
+    let nb = big.len() as u64;
+    ctx.run_slice(Slice::new(format!("structured-pairs-large[sizes {:?}: {}^2]", sizes, nb), nb * nb, |i, loc| check_pair::<B>(&big[(i / nb) as usize], &big[(i % nb) as usize], loc)));
     let meta = Meta {
         rule: "every ordered pair (f,g) of the listed universes of well-formed open hypergraphs over u8 labels (types matching and mismatching); a case is non-trivial when the pair is composable and some identification class has >=2 members with a hyperedge present, or >=3 members; plus structured gluing pairs of up to 64-256 nodes that identify many nodes into one class (zig-zag chains, two interleaved chains that must stay apart, wire orders that grow union-by-rank trees of depth d, two such trees tied through the deepest node) in three wire orders".into(),
         bounds: "glue-deep: <=3 nodes, no edges, boundaries <=3 (repeats allowed), 2 node labels; glue-edges: <=2 nodes, <=1 hyperedge of arity <=2, 2 node labels, boundaries <=2 (quick: left operand input boundary <=1, one edge label); glue-3 (thorough): <=3 nodes, one node label".into(),
